@@ -365,6 +365,11 @@ StringDictionaryHHTFC::StringDictionaryHHTFC(IteratorDictString *it,
   tableHT = builderHT->getTable();
   delete builderHT;
   tableHU = builderHU->getTable();
+  // The coders created above can only encode: attach the decoding tables
+  delete coderHT;
+  coderHT = new StatCoder(tableHT, codewordsHT);
+  delete coderHU;
+  coderHU = new StatCoder(tableHU, codewordsHU);
   delete builderHU;
 }
 
